@@ -114,16 +114,18 @@ impl<'input> LambdaASTLexer<'input> {
         start_offset: usize,
         condition: impl Fn(char) -> bool,
     ) -> &'input str {
-        let mut end_pos = start_offset;
-        while let Some((pos, ch)) = self.chars.peek() {
+        while let Some((_, ch)) = self.chars.peek() {
             if !condition(*ch) {
                 break;
             }
-            end_pos = *pos;
             self.chars.next();
         }
 
-        &self.input[start_offset..end_pos + 1]
+        // the token ends where the next character starts: characters may be wider than one byte,
+        // so `last position + 1` is not necessarily a char boundary
+        let end_pos = self.chars.peek().map(|(pos, _)| *pos).unwrap_or(self.input.len());
+
+        &self.input[start_offset..end_pos]
     }
 
     fn try_parse_first_token(&mut self) -> Spanned<Token<'input>, usize, LexerError> {
